@@ -524,6 +524,21 @@ Theorem one_cc_above_commit : forall cfg_of is_cc, cfg_contract cfg_of is_cc -> 
 Proof. exact RaftNetCfgSafety.one_cc_above_commit_c. Qed.
 Print Assumptions one_cc_above_commit.
 
+Theorem append_never_conflicts_with_committed3 : forall cfg_of is_cc, cfg_contract cfg_of is_cc ->
+  forall s j t ldr prev pt ents lc,
+  reachable3 cfg_of is_cc s -> In (AE t ldr prev pt ents lc) (msgs (base3 s)) ->
+  t = term (nodes (base3 s) j) -> term_at (log (nodes (base3 s) j)) prev = pt ->
+  try_append (log (nodes (base3 s) j)) (commit (nodes (base3 s) j)) prev ents <> None.
+Proof. exact RaftNetCfgSafety.append_never_conflicts_with_committed3_c. Qed.
+Print Assumptions append_never_conflicts_with_committed3.
+
+Theorem heartbeat_commit_in_range3 : forall cfg_of is_cc, cfg_contract cfg_of is_cc ->
+  forall s j t ldr c,
+  reachable3 cfg_of is_cc s -> In (HB t ldr j c) (msgs (base3 s)) ->
+  t = term (nodes (base3 s) j) -> c <= length (log (nodes (base3 s) j)).
+Proof. exact RaftNetCfgSafety.heartbeat_commit_in_range3_c. Qed.
+Print Assumptions heartbeat_commit_in_range3.
+
 Theorem step_fn3_sound : forall cfg_of is_cc s l s',
   step_fn3 cfg_of is_cc s l = Some s' -> step3 cfg_of is_cc s l s'.
 Proof. exact RaftNetCfgSafety.step_fn3_sound. Qed.
